@@ -122,10 +122,14 @@ def run(ctx):
     n_trace = 8000 if q else 40000
     n_sweep = 300000 if q else 5000000
 
+    import shutil
+    tdirs = {}
+    for kind in ("fold", "split"):          # copied before any TLC run litters d
+        tdirs[kind] = ctx.scratch / ("trace_" + kind)
+        shutil.copytree(d, tdirs[kind])
+
     def trace_job(kind, module, tracefile):
-        dd = ctx.scratch / ("trace_" + kind)
-        import shutil
-        shutil.copytree(d, dd)
+        dd = tdirs[kind]
         out = ctx.scratch / (kind + "rec.res")
         ctx.vh(["c13", "record-" + kind, dd / tracefile, out, n_trace, n_sweep], timeout=1800)
         s = ctx.collect(out)
@@ -140,41 +144,67 @@ def run(ctx):
 
     # 2. MC: the scan decides the statement (design lemma), the early returns are sound, and the
     #    pre-fix scan is refuted (the lemma is not vacuous).
+    # 3. G: enumerate, emit, replay.  Three lanes of TLC runs side by side, each in its own copy of the specs;
+    #    the replay of one family runs while TLC enumerates the next.
     base = {"ByteTable": "<- ModelTable"}
-    write_cfg(d / "FoldMC_run.cfg", "Spec", dict(base, Alphabets="<- FamiliesMC", MaxS=3, MaxSub=1 if q else 2),
-              invariants=FOLD_INV)
-    ctx.tlc(d, "Fold", "FoldMC_run.cfg", label="fold-mc")
-    write_cfg(d / "FoldOld_run.cfg", "Spec", dict(base, Alphabets="<- FamilyS", MaxS=3, MaxSub=2),
-              invariants=["OldImplIsRef"])
-    r = ctx.tlc(d, "Fold", "FoldOld_run.cfg", expect_ok=False, count=False, label="fold-oldimpl-must-fail")
-    if r.violated != "OldImplIsRef":
-        raise CheckerError("Fold.tla does not refute the one-fold scan (pre-e857ee7); the lemma ImplIsRef is suspect:\n"
-                           + "\n".join(r.out.splitlines()[-20:]))
+    lanes = {}
+    for name in ("mc", "gen", "small"):
+        lanes[name] = ctx.scratch / ("lane_" + name)
+        shutil.copytree(d, lanes[name])
+    exhaustive = []
+    from vlib.core import NCPU
+    w_big, w_small = max(2, NCPU // 2), max(2, NCPU // 4)
 
-    # 3. G: enumerate, emit, replay (replay of one family runs while TLC enumerates the next).
-    ms, msub = (3, 3) if q else (4, 3)
-    fams = [("FamiliesGen", ms, msub), ("FamilyAscii", 3 if q else 4, 2)]
-    exhaustive_n = 0
-    for name, a, b in fams:
+    def lane_mc():
+        dd = lanes["mc"]
+        write_cfg(dd / "FoldMC_run.cfg", "Spec", dict(base, Alphabets="<- FamiliesMC", MaxS=3, MaxSub=1 if q else 2),
+                  invariants=FOLD_INV)
+        tlc_locked(ctx, dd, "Fold", "FoldMC_run.cfg", workers=w_small, label="fold-mc", timeout=1800)
+        write_cfg(dd / "FoldOld_run.cfg", "Spec", dict(base, Alphabets="<- FamilyS", MaxS=3, MaxSub=2),
+                  invariants=["OldImplIsRef"])
+        r = ctx.tlc(dd, "Fold", "FoldOld_run.cfg", workers=2, expect_ok=False, count=False,
+                    label="fold-oldimpl-must-fail")
+        if r.violated != "OldImplIsRef":
+            raise CheckerError("Fold.tla does not refute the one-fold scan (pre-e857ee7); the lemma ImplIsRef is suspect:\n"
+                               + "\n".join(r.out.splitlines()[-20:]))
+
+    def fold_gen(dd, name, a, b, workers, parts):
         cfg = "FoldGen_%s.cfg" % name
-        write_cfg(d / cfg, "Spec", dict(base, Alphabets="<- " + name, MaxS=a, MaxSub=b),
+        write_cfg(dd / cfg, "Spec", dict(base, Alphabets="<- " + name, MaxS=a, MaxSub=b),
                   invariants=["Emit"] + FOLD_INV)
-        ctx.tlc(d, "FoldGen", cfg, label="fold-gen-" + name, timeout=1800)
-        vec = d / ("fold_%s.ndjson" % name)
-        (d / "fold_vectors.ndjson").rename(vec)
-        exhaustive_n += count_lines(vec)
-        # split the file so that several harness processes replay it side by side
-        parts = split_file(vec, 1 if q else 6)
-        for i, part in enumerate(parts):
+        tlc_locked(ctx, dd, "FoldGen", cfg, workers=workers, label="fold-gen-" + name, timeout=1800)
+        vec = dd / ("fold_%s.ndjson" % name)
+        (dd / "fold_vectors.ndjson").rename(vec)
+        with _lock:
+            exhaustive.append(count_lines(vec))
+        for i, part in enumerate(split_file(vec, parts)):
             bg.go(replay, "replay-fold", part, "fold_%s_%d" % (name, i))
 
-    write_cfg(d / "SplitGen_run.cfg", "Spec", {"Tokens": "<- ModelTokens", "Spaces": "<- ModelSpaces",
-                                                "Seps": "<- ModelSeps", "MaxLen": 6 if q else 7},
-              invariants=["Emit", "PiecesClean", "EarlyReturn", "NothingLost"])
-    ctx.tlc(d, "SplitTrimGen", "SplitGen_run.cfg", label="split-gen", timeout=1800)
-    exhaustive_n += count_lines(d / "split_vectors.ndjson")
-    for i, part in enumerate(split_file(d / "split_vectors.ndjson", 1 if q else 4)):
-        bg.go(replay, "replay-split", part, "split_%d" % i)
+    def lane_gen():
+        ms, msub = (3, 3) if q else (4, 3)
+        fold_gen(lanes["gen"], "FamiliesQuick" if q else "FamiliesGen", ms, msub, w_big, 2 if q else 6)
+
+    def lane_small():
+        dd = lanes["small"]
+        fold_gen(dd, "FamilyAscii", 3 if q else 4, 2, w_small, 1)
+        write_cfg(dd / "SplitGen_run.cfg", "Spec", {"Tokens": "<- ModelTokens", "Spaces": "<- ModelSpaces",
+                                                     "Seps": "<- ModelSeps", "MaxLen": 6 if q else 7},
+                  invariants=["Emit", "PiecesClean", "EarlyReturn", "NothingLost"])
+        tlc_locked(ctx, dd, "SplitTrimGen", "SplitGen_run.cfg", workers=w_small, label="split-gen", timeout=1800)
+        with _lock:
+            exhaustive.append(count_lines(dd / "split_vectors.ndjson"))
+        for i, part in enumerate(split_file(dd / "split_vectors.ndjson", 2 if q else 4)):
+            bg.go(replay, "replay-split", part, "split_%d" % i)
+
+    lane_threads = Bg()
+    lane_threads.go(lane_mc)
+    lane_threads.go(lane_gen)
+    lane_threads.go(lane_small)
+    try:
+        lane_threads.join()
+    finally:
+        pass
+    exhaustive_n = sum(exhaustive)
 
     bg.join()
     for s in sums:
